@@ -143,17 +143,37 @@ func ruleC15PresentUntouched(c *Ctx) {
 		return
 	}
 	// the looked-up value: property(instance, prop)
-	var val *ssa.Call
+	// (the lookup may also report presence as a second result: (value, found))
+	var val ssa.Value
 	core.EachInstr(m.apply, func(i ssa.Instruction) {
 		if call, ok := i.(*ssa.Call); ok {
-			if callee := call.Call.StaticCallee(); callee != nil && c.P.InPkg(callee) && sigIs(callee.Signature, []func(types.Type) bool{tReflectValue, tString}, []func(types.Type) bool{tReflectValue}) && c.rangeOverField(call.Call.Args[1], "Schema.Properties", 1) {
-				// the lookup is the one whose result is tested for validity
+			callee := call.Call.StaticCallee()
+			if callee == nil || !c.P.InPkg(callee) || len(call.Call.Args) < 2 {
+				return
+			}
+			one := sigIs(callee.Signature, []func(types.Type) bool{tReflectValue, tString}, []func(types.Type) bool{tReflectValue})
+			two := sigIs(callee.Signature, []func(types.Type) bool{tReflectValue, tString}, []func(types.Type) bool{tReflectValue, tBool})
+			if !(one || two) || !c.rangeOverField(call.Call.Args[1], "Schema.Properties", 1) {
+				return
+			}
+			var result ssa.Value = call
+			if two {
+				result = nil
 				if call.Referrers() != nil {
 					for _, r := range *call.Referrers() {
-						if vc, ok := r.(*ssa.Call); ok && core.CalleeKey(&vc.Call) == "reflect.Value.IsValid" {
-							val = call
+						if ex, ok := r.(*ssa.Extract); ok && ex.Index == 0 {
+							result = ex
 						}
 					}
+				}
+			}
+			if result == nil || result.Referrers() == nil {
+				return
+			}
+			// the lookup is the one whose result is tested for validity
+			for _, r := range *result.Referrers() {
+				if vc, ok := r.(*ssa.Call); ok && core.CalleeKey(&vc.Call) == "reflect.Value.IsValid" {
+					val = result
 				}
 			}
 		}
